@@ -200,12 +200,19 @@ theorem first_after_idle_immediate {cfg : Config} {s : State} (hidle : Idle s) :
 
 /-- … and nothing else can happen first: after that `Add` the only enabled step of the limiter's
 own goroutines is the one towards the signal (loop head, then the token delivery that fires). -/
-theorem first_after_idle_forced {cfg : Config} {s s1 : State} (hidle : Idle s)
-    (hnc : s.cancelled = false) (hadd : step cfg s .add = some s1) :
+theorem first_after_idle_forced {cfg : Config} (hv : cfg.valid) {s s1 : State} (h : Reach cfg s)
+    (hidle : Idle s) (hnc : s.cancelled = false) (hadd : step cfg s .add = some s1) :
     ∀ l s2, l.internal = true → step cfg s1 l = some s2 →
       (l = .top ∧ s2.fires = s.fires ∧ s2.tokens = 1 ∧ s2.loop = .sel) ∨
-      (l = .deliver ∧ s2.fires = s.fires + 1 ∧ s2.now = s.now) :=
-  first_after_idle_forced_aux hidle.1 hidle.2.1 hidle.2.2.1 hidle.2.2.2.1 hidle.2.2.2.2 hnc hadd
+      (l = .deliver ∧ s2.fires = s.fires + 1 ∧ s2.now = s.now) := by
+  have hcas : s.casDone = true := by
+    cases hc : s.casDone with
+    | true => rfl
+    | false =>
+      have := (inv_reach hv s h).cas hc
+      have hr := hidle.2.2.2.1
+      simp [State.running, this] at hr
+  exact first_after_idle_forced_aux hidle.1 hidle.2.1 hidle.2.2.1 hidle.2.2.2.1 hidle.2.2.2.2 hnc hcas hadd
 
 /-- A window opened by a token that lost the race against its own window's expiry (the expiry
 already signalled its `Add`, so nothing is pending): it signals nothing when opened and nothing
@@ -391,6 +398,41 @@ theorem close_returns {cfg : Config} (hv : cfg.valid) {s : State} (h : Reach cfg
 
 example : (exec demo (init demo) [.runCall, .run, .top, .add, .add, .deliver, .close]).map
       (fun s => (s.closeWaiting, s.tokens, s.senders, s.running)) = some (1, 1, 1, true) := by decide +kernel
+
+/-! ### further `Run` calls, `Run` after `Close` -/
+
+/-- Only one `Run` call ever passes the prologue: once the `running` flag is set, a further call
+(at any time: while running, after `Run` returned, after `Close`) cannot start a loop; all it can
+do is return "already running", which changes nothing but the call counters. -/
+theorem second_run_rejected {cfg : Config} {s : State} (hc : s.casDone = true) (hp : 0 < s.runCalls) :
+    step cfg s .run = none ∧
+    step cfg s .runErrRet =
+      some { s with runCalls := s.runCalls - 1, runErrReturned := s.runErrReturned + 1 } := by
+  simp [step, hc, hp]
+
+/-- The flag is set by the call that wins and is never reset. -/
+theorem running_flag_monotone {cfg : Config} {s s' : State} {l : Label} (hc : s.casDone = true)
+    (hst : step cfg s l = some s') : s'.casDone = true :=
+  casDone_step hc hst
+
+/-- A first `Run` issued after `Close`: it returns nil at once — it never enters the loop and adds
+nothing to the wait group. -/
+theorem run_after_close {cfg : Config} (hv : cfg.valid) {s : State} (h : Reach cfg s)
+    (hcl : s.closed = true) (hc : s.casDone = false) (hp : 0 < s.runCalls) (hr : s.runReturned = false) :
+    ∃ s1 s2, step cfg s .run = some s1 ∧ step cfg s1 .runRet = some s2 ∧
+      s1.loop = .done ∧ s1.helpers = s.helpers ∧ s2.runReturned = true ∧ s1.fires = s.fires := by
+  have hoff := (inv_reach hv s h).cas hc
+  refine ⟨{ s with runCalls := s.runCalls - 1, casDone := true, loop := .done },
+    { s with runCalls := s.runCalls - 1, casDone := true, loop := .done, runReturned := true }, ?_, ?_, rfl, ?_, rfl, rfl⟩
+  · simp [step, hp, hc, hcl]
+  · simp [step, hr]
+  · simp [State.helpers, State.running, hoff]
+
+example : (exec demo (init demo) [.runCall, .run, .top, .runCall, .add, .deliver, .runErrRet, .close, .runCall, .runErrRet]).map
+      (fun s => (s.casDone, s.runCalls, s.runErrReturned, s.fires, s.loop)) = some (true, 0, 2, 1, .top) ∧
+    (exec demo (init demo) [.close, .closeRet, .runCall, .run, .runRet, .runCall, .runErrRet]).map
+      (fun s => (s.casDone, s.loop, s.runReturned, s.runErrReturned, s.helpers)) = some (true, .done, true, 1, 0) := by
+  decide +kernel
 
 /-- The code before the repair (`Close` waited for the wait group while holding `c.lock`): after
 `Add; deliver` the run loop is at its head; a `Close` arriving there leaves *no* enabled
